@@ -39,6 +39,7 @@ func mkfs() *memfs.FS {
 	fs.AddFile("d/x", []byte("hello world"))
 	fs.AddFile("d/y", []byte("yyyy"))
 	fs.MkdirP("d/sub")
+	fs.AddFile("d/sub/k", []byte("k"))
 	fs.MkdirP("e")
 	fs.AddFile("f", []byte("0123456789"))
 	fs.AddNode("s", 0o120777, nil, "f")
@@ -62,6 +63,7 @@ var ops = []op{
 	{"walk", "dir", -1, func(t uint16, f, nf uint32, s string) refcodec.Msg { return rawpeer.Twalk(t, f, nf, "x") }},
 	{"walkgetattr", "dir", -1, func(t uint16, f, nf uint32, s string) refcodec.Msg { return rawpeer.Twalkgetattr(t, f, nf, "x") }},
 	{"walk-sub", "dir", -1, func(t uint16, f, nf uint32, s string) refcodec.Msg { return rawpeer.Twalk(t, f, nf, "sub") }},
+	{"walk2", "dir", -1, func(t uint16, f, nf uint32, s string) refcodec.Msg { return rawpeer.Twalk(t, f, nf, "sub", "k") }},
 	{"clone", "any", -1, func(t uint16, f, nf uint32, s string) refcodec.Msg { return rawpeer.Twalk(t, f, nf) }},
 	{"lopen", "openable", -1, func(t uint16, f, nf uint32, s string) refcodec.Msg { return rawpeer.Tlopen(t, f, 0) }},
 	{"lcreate", "dir", -1, func(t uint16, f, nf uint32, s string) refcodec.Msg { return rawpeer.Tlcreate(t, f, "cr"+s, 2) }},
@@ -310,6 +312,55 @@ func firstWalkScenario(first, name string, oa, ob op, two bool) *fw.Scenario {
 	}}
 }
 
+// afterRenameScenario: fid 10 is walked to an entry, the entry is renamed
+// (lock-step, before the window), fid 11 is walked to it under its new name;
+// then a conflicting pair through the two fids is in flight together. Both
+// fids name one path.
+func afterRenameScenario(how, name string, oa, ob op) *fw.Scenario {
+	nm := fmt.Sprintf("afterrename:%s(%s) then %s||%s", how, name, oa.name, ob.name)
+	return &fw.Scenario{Name: nm, Params: map[string]any{"how": how, "name": name, "A": oa.name, "B": ob.name}, RaceOK: true, New: func() (func(), func(*vsched.Execution) ([]fw.Issue, string)) {
+		var fs *memfs.FS
+		base := 0
+		var replies [2]refcodec.Msg
+		body := func() {
+			fs = mkfs()
+			memfs.RecordSites = true
+			srv := sess.NewServer(fs)
+			s1 := sess.Connect(fs, srv, "c1")
+			s1.Version(8192)
+			s1.Attach(1)
+			bind(s1, 9, nD, -1)
+			bind(s1, fidE, nE, -1)
+			s1.Walk(9, 10, name)
+			switch how {
+			case "renameat":
+				s1.OK(rawpeer.Trenameat(50, 9, name, 9, name+"2"))
+				s1.Walk(9, 11, name+"2")
+			case "rename":
+				s1.OK(rawpeer.Trename(50, 10, 9, name+"2"))
+				s1.Walk(9, 11, name+"2")
+			case "renameat-away-and-back":
+				s1.OK(rawpeer.Trenameat(50, 9, name, fidE, name))
+				s1.OK(rawpeer.Trenameat(51, fidE, name, 9, name))
+				s1.Walk(9, 11, name)
+			}
+			base = len(fs.Calls)
+			vsched.BeginExplore()
+			s1.Peer.SendAll(oa.mk(100, 10, 20, "A"), ob.mk(101, 11, 21, "B"))
+			replies[0], _ = s1.Peer.Recv()
+			replies[1], _ = s1.Peer.Recv()
+			vsched.EndExplore()
+			s1.Hangup()
+			s1.WaitDone()
+		}
+		check := func(e *vsched.Execution) ([]fw.Issue, string) {
+			is := oracle.ContractIssues(fs, base)
+			return is, fmt.Sprintf("%s/%d %s/%d calls=%d", replies[0].Name(), rawpeer.Errno(replies[0]), replies[1].Name(), rawpeer.Errno(replies[1]), len(fs.Calls)-base)
+		}
+		return body, check
+	}}
+}
+
 func opNamed(n string) op {
 	for _, o := range ops {
 		if o.name == n {
@@ -320,7 +371,7 @@ func opNamed(n string) op {
 }
 
 func run(ctx *fw.Ctx, rep *fw.Report) {
-	rep.Rule = "scenario = ordered pair (A,B) of the 26 backend-reaching request types x path relation {same fid, two fids one path, parent/child, child/parent, siblings} x {one, two connections}, two requests in flight on the real server over memfs; all Mazurkiewicz traces (DPOR+sleep sets; fallback preemption bound 0,1); oracle: conflict matrix of the File interface comments over happens-before of backend enter/exit events (not physical overlap), plus Open count per handle; plus 16 two-round scenarios (two FIRST walks to one fresh name in flight together, then a conflicting pair through the two new fids); distinct = distinct (replies, call count, unordered-pair flag) per scenario"
+	rep.Rule = "scenario = ordered pair (A,B) of the 27 backend-reaching request types x path relation {same fid, two fids one path, parent/child, child/parent, siblings} x {one, two connections}, two requests in flight on the real server over memfs; all Mazurkiewicz traces (DPOR+sleep sets; fallback preemption bound 0,1); oracle: conflict matrix of the File interface comments over happens-before of backend enter/exit events (not physical overlap), plus Open count per handle; plus 12 scenarios with a fid from before and a fid from after a rename of the entry, plus 16 two-round scenarios (two FIRST walks to one fresh name in flight together, then a conflicting pair through the two new fids); distinct = distinct (replies, call count, unordered-pair flag) per scenario"
 	rep.Assumptions = append(rep.Assumptions, "independence classes of DESIGN §2.2", "conflict matrix transcribed from p9/file.go comments; 'none' class (StatFS, Lock, Close) and xattr methods never flagged", "setup before the explored window follows the default schedule and settles")
 	type sc struct {
 		p      params
@@ -373,6 +424,21 @@ func run(ctx *fw.Ctx, rep *fw.Report) {
 						// one connection: the unbounded search does not finish in the quick budget (>6e4 executions); go straight to preemption bounds 0 and 1 there
 						SkipDPOR: ctx.Quick() && !two})
 				}
+			}
+		}
+	}
+	// a conflicting pair through a fid from before a rename and one from after it
+	for _, how := range []string{"renameat", "rename", "renameat-away-and-back"} {
+		for _, tgt := range []struct {
+			name string
+			prs  [][2]string
+		}{{"x", [][2]string{{"setattr", "getattr"}, {"getattr", "setattr"}}}, {"sub", [][2]string{{"mkdir", "getattr"}, {"walk", "setattr"}}}} {
+			for _, pr := range tgt.prs {
+				k++
+				if !ctx.Mine(k) {
+					continue
+				}
+				fw.RunScenario(ctx, rep, afterRenameScenario(how, tgt.name, opNamed(pr[0]), opNamed(pr[1])), fw.SchedOpts{Budget: budget, ForcePB: -1, Fallback: []int{0, 1}, Deviations: -1})
 			}
 		}
 	}
